@@ -28,6 +28,13 @@ func indexB(s string, c byte) int {
 //@   induct x[1:], c
 //@   trigger indexB(x, c)
 
+//@ lemma indexBFirst(x string, c byte, j int)
+//@   requires in: 0 <= j && j < len(x) && (indexB(x, c) < 0 || j < indexB(x, c))
+//@   ensures first: x[j] != c
+//@   decreases len(x)
+//@   induct x[1:], c, j-1
+//@   trigger indexB(x, c), x[j]
+
 //@ extern func strings.IndexByte(s string, c byte) (k int)
 //@   pure
 //@   ensures range: -1 <= k && k < len(s)
@@ -62,6 +69,15 @@ func hasSuffix(s, p string) bool { return len(s) >= len(p) && s[len(s)-len(p):] 
 //@ extern func strings.HasSuffix(s string, suffix string) (r bool)
 //@   pure
 //@   ensures spec: r == hasSuffix(s, suffix)
+
+//@ extern func strings.TrimPrefix(s string, prefix string) (r string)
+//@   pure
+//@   ensures hit:  hasPrefix(s, prefix) ==> r == s[len(prefix):]
+//@   ensures miss: !hasPrefix(s, prefix) ==> r == s
+// strings.ContainsRune for an ASCII rune (a non-ASCII rune is left unspecified).
+//@ extern func strings.ContainsRune(s string, r rune) (ok bool)
+//@   pure
+//@   ensures ascii: 0 <= r && r < 128 ==> ok == (indexB(s, byte(r)) >= 0)
 
 // strings.Cut with a one-byte separator.
 //@ extern func strings.Cut(s string, sep string) (before string, after string, found bool)
